@@ -12,6 +12,9 @@ Tie (this check): harness/iindex_hist.py `run_check(ctx, "C15")` - the C06 histo
   * the in-Coq tie is small-scope (N <= 8 initial rows); a SCALE stream (histories from sparse indexes of 130-400 rows with
     50-200-row appends and out-of-order multi-value updates; a few one-step cases on arrays of more than 65 536 cells) is
     always judged by the model-free oracles and compared inside Coq only while the literals stay small.
+  * C15 also runs a large NEAR-TIE stream (receivers of about 65 536 cells, 1-4 columns, whose common value leads the runner-up
+    by a small margin; append / update / union_update / filtered batches sized so that the most frequent value flips or ties;
+    oracle only) instead of the giant-sparse-shape stream of C06/C07.
 Notes: notes/iindex-harness.md."""
 from .. import iindex_hist
 
